@@ -31,6 +31,13 @@ Definition classify_grpc (code : N) (retry_info : option Z) (partial : bool) : o
   else if (code =? 8)%N then match retry_info with Some d => ORetry d | None => OFinal end
   else OFinal.
 
+(** All six clients: [if resp.PartialSuccess != nil { if n != 0 || msg != "" { otel.Handle(...) } }]. *)
+Definition reports (p : partial_info) : bool :=
+  match p with
+  | NoPartial => false
+  | Partial n m => negb (n =? 0)%N || m
+  end.
+
 Definition classify (r : response) : outcome :=
   match r with
   | RespHttp s ra p => classify_http s ra p
